@@ -48,6 +48,19 @@ func Allowed(r *lexm.Rendering, i int, t lexm.Trivia) (text string, ok bool) {
 	if text != "" && l != "" && l[len(l)-1] == '/' && text[0] == '/' {
 		return "", false // `/` directly followed by a comment would itself start a one-line comment
 	}
+	if text == "" && (rt == "}" || rt == "[") && p.Mode == "php}" {
+		// `${name}` / `${name[` is a variable name, `${name }` an expression: the blank is not trivia
+		k := 0
+		for j := i - 1; j >= 0 && k < 2; j-- {
+			if r.Pieces[j].Text == "" {
+				continue
+			}
+			k++
+			if k == 2 && r.Pieces[j].Text == "${" && lexm.IsNameByte(l[len(l)-1]) {
+				return "", false
+			}
+		}
+	}
 	if text == "" && (i+1 >= len(r.Pieces) || !lexm.Separable(l, rt)) {
 		return "", false
 	}
@@ -124,8 +137,7 @@ func Layout(r *lexm.Rendering, free, ws string) string {
 			b.WriteString("\n" + free)
 		default:
 			if free == "" {
-				l, rt := neighbours(r, i)
-				if !lexm.Separable(l, rt) {
+				if _, ok := Allowed(r, i, lexm.Trivia{Text: "", WSOnly: true}); !ok {
 					b.WriteString(" ")
 					continue
 				}
